@@ -160,9 +160,15 @@ def run(ctx):
                          "in_service / opened / control_active flags; distinct = (net, pattern); non-trivial = the run "
                          "does not fail and at least one node is unsupplied. Monitors: non-trivial = something is "
                          "unsupplied or out of service")
+    import time
+    t0 = time.time()
     proved = ctx.prove("C04")
+    t1 = time.time()
     corr_patterns(ctx)
+    t2 = time.time()
     mon.monitors(ctx)
+    ctx.extra["timing_s"] = {"prove": round(t1 - t0, 1), "correspondence": round(t2 - t1, 1),
+                             "monitors": round(time.time() - t2, 1)}
     if (not proved or ctx.brokens) and not ctx.violations:
         mon.monitors(ctx, widen=True)
 
